@@ -20,6 +20,8 @@ var c08Ops = func() []sop {
 		o = append(o, sop{Kind: "remove", MB: mb, Ref: "oldest"}, sop{Kind: "remove", MB: mb, Ref: "newest"})
 	}
 	o = append(o, sop{Kind: "purge", MB: 0}, sop{Kind: "purge", MB: 1})
+	// a restart (file store: a new process, the id counter starts again; no-op on the memory store)
+	o = append(o, sop{Kind: "reopen"})
 	return o
 }()
 
